@@ -521,6 +521,7 @@ type idpServer struct {
 	// recorder and gate; returns nil when the path carries no thread tag
 	route func(path string) (rec *recorder, gate func(), clean string)
 	discovery, jwksDoc string
+	discoveryFor       func(rawQuery string) string // when set: the discovery document depends on the query (one provider, several policies)
 }
 
 // what encoding/json makes of a token response (same member names as the service expects;
@@ -554,6 +555,10 @@ func newIdpServer(rec *recorder) *idpServer {
 		switch r.URL.Path {
 		case "/.well-known/openid-configuration":
 			w.Header().Set("Content-Type", "application/json")
+			if s.discoveryFor != nil && r.URL.RawQuery != "" {
+				io.WriteString(w, s.discoveryFor(r.URL.RawQuery))
+				return
+			}
 			io.WriteString(w, s.discovery)
 			return
 		case "/jwks":
